@@ -54,12 +54,15 @@ var writeOpts = []writeOpt{
 }
 
 // parseVia parses text through one of slip's entry points and returns the bag contents.
-func parseVia(r *common.Rng, text string, strictOK bool) (doc any, errMsg string, via string) {
+func parseVia(r *common.Rng, text string, strictOK, streamOK bool) (doc any, errMsg string, via string) {
 	scope := slip.NewScope()
 	scope.Let(slip.Symbol("txt"), slip.String(text))
 	scope.Let(slip.Symbol("got"), nil)
 	var src string
-	switch x := r.Intn(10); {
+	switch x := r.Intn(11); {
+	case x == 10 && streamOK:
+		scope.Let(slip.Symbol("in"), slip.NewInputStream(&chunkReader{data: []byte(text), r: r, big: r.Chance(30)}))
+		via, src = "bag-read", "(bag-read (make-instance 'bag-flavor) in)"
 	case x < 4:
 		via, src = "make-bag", "(make-bag txt)"
 	case x < 6:
@@ -324,7 +327,7 @@ func (h *harness) textStream(n int) {
 				ctx.Violate("bag-write did not return a string", desc, slip.ObjectString(out.Value), "a string")
 				continue
 			}
-			re, errMsg, via := parseVia(ctx.Rng, string(text), wo.json && utf8.ValidString(string(text)))
+			re, errMsg, via := parseVia(ctx.Rng, string(text), wo.json && utf8.ValidString(string(text)) && !hasEdgeLiteral(doc), !hasEdgeLiteral(doc))
 			reTerm, reOK := optJv(re, errMsg)
 			desc["text"] = string(text)
 			desc["parsed-via"] = via
@@ -386,7 +389,7 @@ func (h *harness) specialStream() {
 					ctx.Violate("bag-write failed on bag data", desc, out.Err+": "+out.Msg, "a string")
 					continue
 				}
-				re, errMsg, via := parseVia(ctx.Rng, string(text), false)
+				re, errMsg, via := parseVia(ctx.Rng, string(text), false, !hasEdgeLiteral(doc))
 				reTerm, reOK := optJv(re, errMsg)
 				desc["text"], desc["parsed-via"] = string(text), via
 				if errMsg != "" {
@@ -424,7 +427,7 @@ func (h *harness) parseStream(n int) {
 		} else {
 			ctx.Hist("spell:sen")
 		}
-		re, errMsg, via := parseVia(ctx.Rng, text, asJSON)
+		re, errMsg, via := parseVia(ctx.Rng, text, asJSON && !hasEdgeLiteral(doc), !hasEdgeLiteral(doc))
 		reTerm, reOK := optJv(re, errMsg)
 		desc := map[string]any{"stream": "parse", "doc": show(doc), "text": text, "parsed-via": via}
 		if errMsg != "" {
